@@ -74,3 +74,31 @@ def repack(arr, mode):
         b.flags.writeable = False
         return b, "readonly"
     return arr, "same"
+
+
+PART_FORMS = ["list", "list", "array", "shuffled", "shuffled", "bool", "int32"]
+
+
+def partition_form(idx, n, mode, seed=0):
+    """An index partition vector (rb / rf ...) in another of its documented forms ("index or bool partition
+    vector"): list | array | shuffled (the same DOF listed in another order) | bool (mask of length n) | int32.
+    None and the empty list (which carry a meaning of their own) are returned unchanged.  -> (object, label)"""
+    if idx is None or len(idx) == 0:
+        return idx, "asis"
+    a = np.asarray(idx, dtype=np.int64)
+    if mode == "array":
+        return a.copy(), "array"
+    if mode == "int32":
+        return a.astype(np.int32), "int32"
+    if mode == "shuffled":
+        if len(a) < 2:
+            return a.copy(), "array"
+        p = rng_of(seed).permutation(len(a))
+        if np.all(p == np.arange(len(a))):
+            p = p[::-1]
+        return a[p], "shuffled"
+    if mode == "bool":
+        m = np.zeros(n, bool)
+        m[a] = True
+        return m, "bool"
+    return list(idx), "list"
